@@ -249,7 +249,7 @@ func runC04(c *Ctx) {
 						dataReads = append(dataReads, a.Addr)
 					}
 				}
-				post := cpu.States
+				post := Arch(cpu.States)
 				post.IR.Lo = exp.Post.IR.Lo
 				isRETI := bs[0] == 0xed && bs[1] == 0x4d
 				if isRETI && post.IFF1 == post.IFF2 {
@@ -392,7 +392,7 @@ func runC04(c *Ctx) {
 						defer func() { dpan = recover() }()
 						dcpu.Step()
 					}()
-					dpost := dcpu.States
+					dpost := Arch(dcpu.States)
 					dpost.IR.Lo = exp.Post.IR.Lo
 					if isRETI && dpost.IFF1 == dpost.IFF2 {
 						dpost.IFF1 = exp.Post.IFF1
@@ -519,7 +519,7 @@ func runC04(c *Ctx) {
 				ll++
 				want := pre
 				want.PC = pre.PC + 3
-				got := cpu.States
+				got := Arch(cpu.States)
 				got.IR.Lo = want.IR.Lo
 				if got != want || mid.PC != nn || mid.SP != pre.SP-2 {
 					c.R.Violation("C04/law/CALL-RET", map[string]interface{}{"pre": DumpState(&pre, false), "nn": h16(nn),
@@ -555,7 +555,7 @@ func runC04(c *Ctx) {
 				ll++
 				want := pre
 				want.PC = pre.PC + uint16(len(prog))
-				got := cpu.States
+				got := Arch(cpu.States)
 				got.IR.Lo = want.IR.Lo
 				hiB, loB := mem.Data[pre.SP-1], mem.Data[pre.SP-2]
 				var q uint16
